@@ -216,7 +216,10 @@ StepEval(pr, s, e) ==
     [] e.t = "GetField" -> Ops(s, [op |-> "getf", n |-> e.n], e.o, <<>>)
     [] e.t = "SetField" -> Ops(s, [op |-> "setf", n |-> e.n], e.o, <<e.e>>)
     [] e.t = "Array" -> IF Trivial(e.init) THEN Ops(s, [op |-> "arr"], e.size, <<e.init>>)
-                        ELSE Eval(PushK(s, [t |-> "arrsize", init |-> e.init]), e.size)
+                        \* a let standing directly in a re-executed initializer (not inside a block of its own): the README does not say whether its
+                        \* variable belongs to the enclosing scope or to each element's evaluation (the compiler wraps the element assignment in a
+                        \* block, so it is the latter) - the execution leaves the defined fragment
+                        ELSE Eval(PushK(IF LetsOf(e.init) = <<>> THEN s ELSE NoFrag(s), [t |-> "arrsize", init |-> e.init]), e.size)
     [] e.t = "Object" -> LET fl == SelectSeq(e.members, LAMBDA mb : mb.t = "Let") IN
                          Ops(s, [op |-> "obj", members |-> e.members], e.parent, [i \in 1..Len(fl) |-> fl[i].e])
 
